@@ -191,3 +191,49 @@ def single_element(events, voids):
     if len(rest) == 1 and rest[0] == ["end", first[1]]:
         return {"tag": first[1], "attrs": first[2], "text": text}
     return None
+
+
+# ------------------------------------------------------------------ Tag objects: fresh, held, open/close
+
+PROP_TAGS = ("form", "input", "textarea", "button", "select", "option", "label")
+
+
+class TagPool:
+    """Renders through Tag OBJECTS the way templates do: `gen.<tag>(...)` on a fresh object, a held reference used for
+    several renderings (`ta = gen.textarea; ta(a); ta(b)`), `open()` / `.contents` / `close()`.  An entry names its
+    object by "handle" (None = fresh) and the method by "how" (call | open | close | openclose)."""
+
+    def __init__(self, gen):
+        self.gen = gen
+        self.held = {}
+
+    def tag_object(self, entry):
+        tag, via = entry["tag"], entry.get("via", "prop")
+
+        def fresh():
+            if via == "prop" and tag in PROP_TAGS:
+                return getattr(self.gen, tag)
+            return self.gen.tag(tag)          # without bind/attributes: the Tag object
+        h = entry.get("handle")
+        if h is None:
+            return fresh()
+        if h not in self.held:
+            self.held[h] = fresh()            # (if a tag of that name is open, the generator hands back that one)
+        return self.held[h]
+
+    def render(self, entry, bind, kwargs):
+        """-> (markup, contents-after-open or None)"""
+        t = self.tag_object(entry)
+        how = entry.get("how", "call")
+        if how == "call":
+            return str(t(bind, **kwargs)), None
+        if how == "open":
+            o = str(t.open(bind, **kwargs))
+            return o, str(t.contents)
+        if how == "close":
+            return str(t.close()), None
+        if how == "openclose":
+            o = str(t.open(bind, **kwargs))
+            c = str(t.contents)
+            return o + c + str(t.close()), None
+        raise ValueError(how)
